@@ -322,6 +322,10 @@ func c04(c *Ctx) {
 			c04EmitOnce(c, name, h)
 		}
 	}
+	// ldap's request loop lives in a method the handler calls with the (possibly upgraded) connection
+	if lh := p.Method("services/ldap", "ldapService", "handle"); c.Anchor(lh != nil, "one-event-per-command", "(*ldap.ldapService).handle") {
+		c04EmitOnce(c, "ldap", lh)
+	}
 	c.Check(nR1 >= 6, "reader-outside-request-loop", "reader constructions found", "-", fmt.Sprint(nR1), fmt.Sprintf("expected at least 6 buffered-reader constructions over handler connections, found %d", nR1))
 	c04DatagramBuffers(c)
 	c04PendingInput(c)
